@@ -241,7 +241,7 @@ func (c *Ctx) encoderPath(p *Path, par types.Object) (class, why string, feasibl
 	ret := c.normByteStrings(p.Vals[0])
 	// shape B's encoder and buffer, from the effects
 	var encT, bufT Term
-	encoded := false
+	encoded, truncated := false, false
 	effWhy := ""
 	for _, s := range p.Effects() {
 		if s.Kind != "call" || s.Call == nil || s.Call.Fun == nil {
@@ -277,6 +277,26 @@ func (c *Ctx) encoderPath(p *Path, par types.Object) (class, why string, feasibl
 			}
 			encoded = true
 		case "(*strings.Builder).Grow", "(*bytes.Buffer).Grow":
+		case "(*bytes.Buffer).Truncate":
+			// buffer.Truncate(buffer.Len() - 1) after the encoding: the final newline is cut off in place
+			okT := encoded && !truncated && len(s.Call.Args) == 1 && s.Call.Recv != nil && bufT != nil && sameBuffer(s.Call.Recv, bufT)
+			if okT {
+				okT = false
+				if b, isB := simplify(s.Call.Args[0]).(TBin); isB && b.Op == token.SUB {
+					if one, isK := constInt(b.Y); isK && one == 1 {
+						if ln, isCall := b.X.(TCall); isCall && ln.Fun != nil && ln.Fun.FullName() == "(*bytes.Buffer).Len" && ln.Recv != nil && sameBuffer(ln.Recv, bufT) {
+							okT = true
+						}
+						if lb, isLen := b.X.(TBuiltin); isLen && lb.Name == "len" && len(lb.Args) == 1 && encBufString(c, lb.Args[0], bufT) {
+							okT = true
+						}
+					}
+				}
+			}
+			if !okT {
+				effWhy = "the buffer is truncated other than by exactly its last byte after the encoding"
+			}
+			truncated = true
 		case "encoding/json.Marshal":
 			if len(s.Call.Args) != 1 || !isParamTerm(s.Call.Args[0], par) {
 				effWhy = "unexpected call " + s.Call.Fun.FullName()
@@ -320,6 +340,22 @@ func (c *Ctx) encoderPath(p *Path, par types.Object) (class, why string, feasibl
 	}
 	if !encoded {
 		return "", "helper matches no accepted encoder shape", true
+	}
+	if truncated {
+		// what the path decides about the encoder's output it must decide before the truncation (afterwards the text is another one)
+		seenTrunc := false
+		for _, st := range p.Steps {
+			if st.Kind == "call" && st.Call != nil && st.Call.Fun != nil && st.Call.Fun.FullName() == "(*bytes.Buffer).Truncate" {
+				seenTrunc = true
+			} else if st.Kind == "cond" && seenTrunc {
+				return "", "a decision on the buffer after it was truncated", true
+			}
+		}
+		// the newline went with the Truncate (which the conditions of the path allowed only on a text ending in it): what is left is the text
+		if encBufString(c, ret, bufT) {
+			return "json", "", true
+		}
+		return "", "after the truncation the helper does not return the buffer's content", true
 	}
 	// the returned text is E without its final "\n": TrimSuffix/TrimRight(E, "\n") or E[:len(E)-1]
 	if cv, ok := ret.(TConv); ok && isStringType(cv.To) {
@@ -1009,6 +1045,11 @@ func c02Container(c *Ctx, ct *Cont) {
 			shape.Undecided("body outside the path vocabulary: %s", p.Why)
 			return
 		}
+	}
+	{
+		// a shrinking window or a countdown over the spine is the index loop it stands for
+		v := c.view(fd)
+		paths = v.countdownNorm(v.windowNorm(paths))
 	}
 	bad, undec := "", ""
 	badEmit := ""
